@@ -105,7 +105,14 @@ def check(space, state):
             V.append(viol("%s%s" % (name, kindsfx), "%s cell %s: library %r, sum/base-cell total = %r"
                           % (name, d[0], d[1], d[2]), output=name, cell=list(d[0])))
 
-    for part, (kind, _lbl, orc) in zip(cube.partitions, oracles):
+    scaled = {}
+    if sch.weighted and data:
+        from mc.common2d import SCALES, scale_invariant, scaled_parts
+        scaled = {e: scaled_parts(sch, data, cfg, e) for e in SCALES}
+    for pidx, (part, (kind, _lbl, orc)) in enumerate(zip(cube.partitions, oracles)):
+        for e, sp in scaled.items():
+            asserted += scale_invariant(V, ["share_sum"] if kind == "strand" else
+                                        ["row_share_sum", "column_share_sum", "total_share_sum"], part, sp[pidx], e)
         if kind == "strand":
             rows = orc.rows
             specs = resolve_insertions(rows, cfg.get("rows"))
